@@ -129,9 +129,15 @@ class Conn:
 class PipeWorld:
     '''one engine + target set; module state of schedule/farm is *the* state'''
 
-    def __init__(self, desc, targets, mode='ample', rev='r1', store_next=7, real_db=False):
+    def __init__(self, desc, targets, mode='ample', rev='r1', store_next=7, real_db=False, clock_at=None):
         install_seams()
         self.real_db = real_db
+        self.clock = None
+        self.clock_at = clock_at
+        if clock_at is not None:
+            from . import world
+            self.clock = world.VClock(clock_at)
+            self.clock.install(schedule, 'datetime')
         self.eng = aegen.Engine(desc)
         self.factories = self.eng.load(common.scratch_root())
         self.targets = list(targets)
@@ -147,6 +153,7 @@ class PipeWorld:
         self.tasks_msgs = {}
         self.nodes = {}
         self.next_calls = 0
+        self.next_total = 0
         self._patch()
         self.boot()
 
@@ -162,8 +169,10 @@ class PipeWorld:
             dawgie.db.targets = lambda *a, **k: list(w.targets)
 
             def nxt():
+                # max(stored run ids) + 1: grows with every run that was started
                 w.next_calls += 1
-                return w.store_next
+                w.next_total += 1
+                return w.store_next + w.next_total - 1
 
             dawgie.db.next = nxt
         dawgie.context.fsm = self.fsm
@@ -207,6 +216,7 @@ class PipeWorld:
         self.fsm.archive_calls = 0
         dawgie.context.git_rev = self.rev
         self.next_calls = 0
+        self.next_total = 0
         latest = latest or ({}, {}, {})
         previous = previous or ({}, {}, {}, {})
         schedule.build(self.factories, latest, previous)
@@ -217,6 +227,11 @@ class PipeWorld:
         missing = set(self.eng.tags()) - set(self.nodes)
         if missing:
             raise common.HarnessBroken(f'nodes missing from the DAG: {missing}')
+        if self.clock is not None:
+            from . import world
+            world.reset_reactor()
+            self.clock.set(self.clock_at)
+            schedule.periodics(self.factories[dawgie.Factories.events])
 
     # -------------------------------------------------------------- state
     def capture(self):
@@ -246,7 +261,20 @@ class PipeWorld:
             'crew_wait': self.fsm.crew_wait,
             'rev': dawgie.context.git_rev,
             'uid': self.uid,
+            'nexts': self.next_total,
+            'timed': self._timed_state(),
         }
+
+    def _timed_state(self):
+        if self.clock is None:
+            return None
+        import twisted.internet.reactor as reactor
+        now = reactor.seconds()
+        fired = tuple((t, tuple(sorted((n.get('fired') or {}).items())))
+                      for t, n in sorted(self.nodes.items()) if n.get('fired'))
+        return {'clock': round((self.clock.now - self.clock_at).total_seconds()),
+                'timers': tuple(sorted(round(c.getTime() - now) for c in reactor.getDelayedCalls())),
+                'fired': fired, 'booted': tuple(schedule.booted)}
 
     def restore(self, s):
         self.activate()
@@ -289,8 +317,25 @@ class PipeWorld:
             farm._workers.append(c.hand)
         self.inflight = [list(u) for u in s['inflight']]
         self.uid = s['uid']
+        self.next_total = s.get('nexts', 0)
         self.chron = []
         self.obs = []
+        if self.clock is not None:
+            import datetime
+            import twisted.internet.reactor as reactor
+            from . import world
+            ts = s['timed']
+            world.reset_reactor()
+            self.clock.set(self.clock_at + datetime.timedelta(seconds=ts['clock']))
+            for off in ts['timers']:
+                reactor.callLater(off, lambda: schedule.defer())
+            fired = dict(ts['fired'])
+            for t, n in self.nodes.items():
+                if t in fired:
+                    n.set('fired', dict(fired[t]))
+                else:
+                    n.attrib.pop('fired', None)
+            schedule.booted[:] = list(ts['booted'])
 
     @staticmethod
     def canon(s):
@@ -302,7 +347,8 @@ class PipeWorld:
         return (nodes, s['que'], s['per'], s['paused'], s['jobs'],
                 tuple((m.jobid, m.target, m.runid) for m in s['cluster']),
                 tuple(sorted(s['busy'])), s['archive'], s['workers'], inflight,
-                s['active'], s['crew_wait'], s['rev'])
+                s['active'], s['crew_wait'], s['rev'], s.get('nexts', 0),
+                None if s.get('timed') is None else tuple(sorted(s['timed'].items())))
 
     def _conn_of(self, hand):
         for c in self.conns:
@@ -422,8 +468,16 @@ class PipeWorld:
         return ('replied', jobid, tgt, runid)
 
     def ev_timer(self):
-        from . import world
-        return world.advance_to_next_timer()
+        '''advance wall clock and reactor to the next pending timer (defer)'''
+        import twisted.internet.reactor as reactor
+        calls = reactor.getDelayedCalls()
+        if not calls:
+            return False
+        step = max(0.0, min(c.getTime() for c in calls) - reactor.seconds())
+        if self.clock is not None:
+            self.clock.advance(step)
+        reactor.advance(step)
+        return True
 
     def ev_life(self, what, rev=None):
         '''life-cycle changes as the farm sees them'''
